@@ -254,6 +254,23 @@ class StoreSession:
         if self.scratch:
             shutil.rmtree(self.scratch, ignore_errors=True)
 
+    def apply_checked(self, i, op, prop):
+        """Apply a build operation; the reference model expects it to succeed, so an exception raised by
+        the real store is a violation (not a harness failure).  Returns False when the session must stop."""
+        try:
+            self.apply(i, op)
+            return True
+        except Exception as exc:
+            import traceback
+            fn = "?"
+            for fr in traceback.extract_tb(exc.__traceback__):
+                if "leuvenmapmatching" in fr.filename:
+                    fn = fr.name
+            if fn == "?":
+                raise
+            self.vs.append(V("%s/operation-raises/%s/%s/%s" % (prop, op["op"], type(exc).__name__, fn), str(exc)[:200], i))
+            return False
+
     # -- build operations on both the real stores and the reference
     def apply(self, i, op):
         k = op["op"]
@@ -549,7 +566,8 @@ def eval_C11(doc):
                 elif k in ("reopen", "crash"):
                     _reopen(sess, crash=(k == "crash"))
                 else:
-                    sess.apply(i, op)
+                    if not sess.apply_checked(i, op, "C11"):
+                        break
     finally:
         sess.close()
     sig = "|".join([str(doc["latlon"]), doc["mag"], "".join(o["op"][0] + o["op"][-1] for o in doc["ops"])[:40]])
@@ -670,7 +688,8 @@ def eval_C12(doc):
                         sess.bump("probe_node_on_box_border")
                     sess.bump("box_queries")
                 else:
-                    sess.apply(i, op)
+                    if not sess.apply_checked(i, op, "C12"):
+                        break
                     sess.vs.extend(compare_backends(sess, i))
                     sess.bump("backend_comparisons")
             # the same edge-based matcher on either backend
@@ -709,7 +728,7 @@ def eval_C12(doc):
         elif oa_.obs is not None and ob.obs is not None:
             c = compare(oa_.obs, ob.obs)
             if c.startswith("diff"):
-                if doc["cfg"].get("avoid_goingback") and c != "diff:idx":
+                if doc["cfg"].get("avoid_goingback", True) and c != "diff:idx":
                     sess.bump("inconclusive_second_order")
                 else:
                     sess.vs.append(V("C12/match/" + c, "inmem=%r sqlite=%r" % ((oa_.obs["idx"], oa_.obs["bestE"]), (ob.obs["idx"], ob.obs["bestE"])), len(doc["ops"])))
@@ -894,9 +913,11 @@ def eval_C18(doc):
                 elif k.startswith("q_"):
                     pass
                 else:
-                    sess.apply(i, op)
+                    if not sess.apply_checked(i, op, "C18"):
+                        break
     finally:
         sess.close()
+    vs.extend(sess.vs)
     for k2, v in sess.stats.items():
         stats[k2] = stats.get(k2, 0) + v
     sig = "|".join(["sqlite", str(latlon), doc["mag"], "".join(o["op"][0] + o["op"][-1] for o in doc["ops"])[:40]])
